@@ -160,6 +160,10 @@ def sys_configs(tier: str) -> list:
         _cfg(2, 2, "file", (1,), shard=True, lim=4),
         _cfg(1, 1, "absent", (), shard=True, lim=1),
         _cfg(3, 1, "file", (1,), shard=True, lim=2, pre=()),      # 2 numbered shards beside the model's own plain file
+        # concurrent shard drivers (end state judged only): pre-existing numbered shard files / none
+        _cfg(3, 1, "absent", (), shard=True, lim=1, par=True, pre=(2,)),
+        _cfg(3, 2, "file", (), shard=True, lim=2, par=True, pre=(3,)),
+        _cfg(3, 1, "absent", (), shard=True, lim=1, par=True),
     ]
     extra = [
         _cfg(3, 1, "file", (1, 3)),            # two tensors backed by the destination (beyond the MC bound)
@@ -508,6 +512,10 @@ def judge(ctx, runs: list, tag: str, allowed: dict | None = None) -> None:
             sp[c["bv"]] = sp.get(c["bv"], 0) + 1
         if v["acc"]:
             ctx.validated += 1
+        elif c["shard"] and c["par"]:
+            # concurrent shard drivers: outside the action system (AtomicSave.tla, WellFormedCfg); the formulas of the
+            # property were evaluated on the observed end state all the same
+            ctx.extra["state_only_runs"] = ctx.extra.get("state_only_runs", 0) + 1
         else:
             ctx.extra["divergences"] = ctx.extra.get("divergences", 0) + 1
             ev = tr["ev"]
